@@ -156,7 +156,12 @@ func SeedStore(c *vs.Case, e *Env, o SeedOpts) []Seed {
 			}
 		case "owned-nonmatching":
 			labels["app"] = "someone-else"
-			meta["ownerReferences"] = []any{OwnerRefTo(parent, true)}
+			refs := []any{OwnerRefTo(parent, true)}
+			if c.Bool() {
+				refs = []any{map[string]any{"apiVersion": "v1", "kind": "ConfigMap", "name": "someone", "uid": "uid-bystander"}, OwnerRefTo(parent, true),
+					map[string]any{"apiVersion": "v1", "kind": "ConfigMap", "name": "other", "uid": "uid-bystander2", "blockOwnerDeletion": true}}
+			}
+			meta["ownerReferences"] = refs
 		case "foreign-owned":
 			for k, v := range e.MatchLabels() {
 				labels[k] = v
